@@ -209,6 +209,43 @@ def f_abs(m, st, fr, callee, args):
     return F(ite(to_real(x.r) >= 0, to_real(x.r), -to_real(x.r)), x.bad)
 
 
+@M.add(r"f64::<impl f64>::powi|<f64 as num_traits::Float>::powi")
+def f_powi(m, st, fr, callee, args):
+    base, e = args
+    if is_sym(e):
+        raise Unsupported("symbolic exponent")
+    if e < 0:
+        raise Unsupported("negative integer power")
+    out = F(Fraction(1))
+    for _ in range(e):
+        out = f_arith("Mul", out, base)
+    return out
+
+
+@M.add(r"f64::<impl f64>::mul_add|<f64 as num_traits::Float>::mul_add")
+def f_mul_add(m, st, fr, callee, args):
+    """a*b + c (fused: one rounding; over the reals the same number)"""
+    return f_arith("Add", f_arith("Mul", args[0], args[1]), args[2])
+
+
+@M.add(r"f64::<impl f64>::recip|<f64 as num_traits::Float>::recip")
+def f_recip(m, st, fr, callee, args):
+    return f_arith("Div", F(Fraction(1)), args[0])
+
+
+@M.add(r"f64::<impl f64>::is_finite|<f64 as num_traits::Float>::is_finite")
+def f_is_finite(m, st, fr, callee, args):
+    # the real-number interpretation has no overflow: finite <=> defined (an infinite *constant* is not finite)
+    if args[0].inf:
+        return False
+    return b_not(args[0].bad)
+
+
+@M.add(r"f64::<impl f64>::is_infinite|<f64 as num_traits::Float>::is_infinite")
+def f_is_infinite(m, st, fr, callee, args):
+    return bool(args[0].inf)
+
+
 @M.add(r"f64::<impl f64>::is_nan")
 def f_is_nan(m, st, fr, callee, args):
     return args[0].bad
